@@ -30,6 +30,8 @@ type CallEntry struct {
 	Used       bool
 	Pos        string
 	Snapshot   engine.Value // deep snapshot of the (dereferenced) result at return time
+	Returned   engine.Value // the value handed back to the caller (tuple for several results)
+	Repeats    int          // further calls with identical arguments
 }
 
 type CallLog struct {
@@ -100,7 +102,25 @@ func (d *Driver) external(r *engine.Run, fn *ssa.Function, args []engine.Value, 
 	if pc == nil {
 		return nil, false
 	}
-	// user code: logging havoc stub
+	// user code: logging havoc stub. Custom functions are assumed to be pure functions of their
+	// arguments: a repeated call with identical arguments returns the logged result again.
+	idt := &Oracle{R: r}
+	for _, prev := range pc.Calls.Calls {
+		if prev.Fn != fn || len(prev.Args) != len(args) {
+			continue
+		}
+		same := true
+		for i := range args {
+			if !idt.Identical(prev.Args[i], args[i]).IsTrue() {
+				same = false
+				break
+			}
+		}
+		if same {
+			prev.Repeats++
+			return prev.Returned, true
+		}
+	}
 	sig := fn.Signature
 	e := &CallEntry{Seq: len(pc.Calls.Calls), Name: fn.Name(), Fn: fn, Args: args}
 	if site != nil {
@@ -169,9 +189,11 @@ func (d *Driver) external(r *engine.Run, fn *ssa.Function, args []engine.Value, 
 	pc.Calls.Calls = append(pc.Calls.Calls, e)
 	switch len(out) {
 	case 0:
-		return nil, true
+		e.Returned = nil
 	case 1:
-		return out[0], true
+		e.Returned = out[0]
+	default:
+		e.Returned = out
 	}
-	return out, true
+	return e.Returned, true
 }
